@@ -17,8 +17,12 @@ const BINCODE_CONFIG: bincode::config::Configuration<bincode::config::LittleEndi
     bincode::config::legacy();
 const BASE_US: u64 = 1_700_000_000_000_000;
 
-// ---------------------------------------------------------------- concrete filters (type, field, value)
-type CF = (u8, u8, u8);
+// ---------------------------------------------------------------- concrete filters
+/// (type, field, value, enabled) as a command carries them.
+/// type: 0 positive, 1 negative, 2 marker, 3 event.  field 0 ecu, 1 apid, 2 ctid: one criterion "field == value";
+/// field 3: two criteria in one filter, apid == value % 3 AND ctid == value / 3.
+/// enabled: 0 = "enabled":false, 1 = no "enabled" key (the default: enabled), 2 = "enabled":true
+type CF = (u8, u8, u8, u8);
 
 fn field_name(field: u8) -> &'static str {
     match field {
@@ -41,49 +45,194 @@ fn c4(field: u8, v: u8) -> DltChar4 {
 fn cf_json(f: &CF) -> Value {
     let mut o = serde_json::Map::new();
     o.insert("type".into(), json!(f.0));
-    o.insert(field_name(f.1).into(), json!(c4name(f.1, f.2)));
+    if f.1 <= 2 {
+        o.insert(field_name(f.1).into(), json!(c4name(f.1, f.2)));
+    } else {
+        o.insert("apid".into(), json!(c4name(1, f.2 % 3)));
+        o.insert("ctid".into(), json!(c4name(2, f.2 / 3)));
+    }
+    match f.3 {
+        0 => {
+            o.insert("enabled".into(), json!(false));
+        }
+        2 => {
+            o.insert("enabled".into(), json!(true));
+        }
+        _ => {}
+    }
     Value::Object(o)
 }
 fn cfs_json(fs: &[CF]) -> Value {
     Value::Array(fs.iter().map(cf_json).collect())
 }
 fn cfs_coq(fs: &[CF]) -> String {
-    clist(&fs.iter().map(|f| format!("({}, {}, {})", f.0, f.1, f.2)).collect::<Vec<_>>())
+    clist(&fs.iter().map(|f| format!("({}, {}, {}, {})", f.0, f.1, f.2, f.3)).collect::<Vec<_>>())
 }
-/// the harness' own reading of match_filters on (ecu, apid, ctid)
-fn cf_match(fs: &[CF], e: u8, a: u8, c: u8) -> bool {
-    let hit = |f: &CF| match f.1 {
+/// the criteria of one filter on a message with (ecu, apid, ctid)
+fn cf_hit(f: &CF, e: u8, a: u8, c: u8) -> bool {
+    match f.1 {
         0 => e % 10 == f.2 % 10,
         1 => a % 10 == f.2 % 10,
-        _ => c % 10 == f.2 % 10,
-    };
-    let pos: Vec<&CF> = fs.iter().filter(|f| f.0 == 0).collect();
-    let neg: Vec<&CF> = fs.iter().filter(|f| f.0 == 1).collect();
-    let ev: Vec<&CF> = fs.iter().filter(|f| f.0 == 3).collect();
-    (pos.is_empty() || pos.iter().any(|f| hit(f))) && !neg.iter().any(|f| hit(f)) && (ev.is_empty() || ev.iter().any(|f| hit(f)))
+        2 => c % 10 == f.2 % 10,
+        _ => a % 10 == f.2 % 3 && c % 10 == f.2 / 3,
+    }
+}
+/// the ENABLED filters of one kind
+fn cf_kind(fs: &[CF], t: u8) -> Vec<&CF> {
+    fs.iter().filter(|f| f.0 == t && f.3 != 0).collect()
+}
+/// the harness' own statement of which messages a filter set selects (the property's "filtered message sequence" /
+/// "matching positions"), from the set semantics of the enabled filters: positive = OR (none: pass), negative = veto,
+/// event = at least one matches when any exist; disabled and marker filters do not count
+fn cf_match(fs: &[CF], e: u8, a: u8, c: u8) -> bool {
+    let (pos, neg, ev) = (cf_kind(fs, 0), cf_kind(fs, 1), cf_kind(fs, 3));
+    let pos_ok = pos.is_empty() || pos.iter().filter(|f| cf_hit(f, e, a, c)).count() >= 1;
+    let vetoed = neg.iter().filter(|f| cf_hit(f, e, a, c)).count() >= 1;
+    let ev_ok = ev.is_empty() || ev.iter().filter(|f| cf_hit(f, e, a, c)).count() >= 1;
+    pos_ok && !vetoed && ev_ok
 }
 fn cf_active(fs: &[CF]) -> bool {
-    fs.iter().any(|f| f.0 == 0 || f.0 == 1 || f.0 == 3)
+    fs.iter().any(|f| (f.0 == 0 || f.0 == 1 || f.0 == 3) && f.3 != 0)
 }
-fn gen_filters(rng: &mut Rng) -> Vec<CF> {
-    let n = match rng.below(10) {
-        0..=2 => 0,
-        3..=6 => 1,
-        7..=8 => 2,
-        _ => 3,
-    };
-    (0..n)
-        .map(|_| {
-            let t = *rng.pick(&[0u8, 0, 0, 0, 1, 1, 3, 2]);
-            let field = rng.below(3) as u8;
-            let v = match field {
-                0 => 1 + rng.below(2) as u8,
-                1 => rng.below(3) as u8,
-                _ => rng.below(2) as u8,
+fn gen_crit(rng: &mut Rng) -> (u8, u8) {
+    match rng.below(10) {
+        0..=1 => (0, 1 + rng.below(2) as u8),
+        2..=5 => (1, rng.below(3) as u8),
+        6..=7 => (2, rng.below(2) as u8),
+        _ => (3, rng.below(6) as u8),
+    }
+}
+/// number of filters of one kind for class 0..3: 0, 1, 2, "3 or more"
+fn class_count(rng: &mut Rng, class: u8) -> usize {
+    match class {
+        0..=2 => class as usize,
+        _ => 3 + rng.below(2) as usize,
+    }
+}
+/// how the filters of a set are enabled: 0 all enabled, 1 each disabled with probability 1/3, 2 all disabled,
+/// 3 exactly one kind completely disabled
+fn shaped_filters(rng: &mut Rng, classes: [u8; 3], dis_mode: u8) -> Vec<CF> {
+    let kinds = [0u8, 1, 3];
+    let dead_kind = kinds[rng.below(3) as usize];
+    let mut fs: Vec<CF> = vec![];
+    for (j, t) in kinds.iter().enumerate() {
+        for _ in 0..class_count(rng, classes[j]) {
+            // criteria: fresh (same field: disjoint or identical; other field: overlapping; two criteria: nested) or
+            // the criteria of an earlier filter (the same condition in two kinds, duplicates inside a kind)
+            let (field, v) = if !fs.is_empty() && rng.chance(1, 5) {
+                let g = *rng.pick(&fs);
+                (g.1, g.2)
+            } else {
+                gen_crit(rng)
             };
-            (t, field, v)
-        })
-        .collect()
+            let on = 1 + rng.below(2) as u8;
+            let en = match dis_mode {
+                0 => on,
+                1 => {
+                    if rng.chance(1, 3) {
+                        0
+                    } else {
+                        on
+                    }
+                }
+                2 => 0,
+                _ => {
+                    if *t == dead_kind {
+                        0
+                    } else {
+                        on
+                    }
+                }
+            };
+            fs.push((*t, field, v, en));
+        }
+    }
+    if rng.chance(1, 8) {
+        let (field, v) = gen_crit(rng);
+        fs.push((2, field, v, rng.below(3) as u8));
+    }
+    // the order of the array is part of the input
+    for j in (1..fs.len()).rev() {
+        let k = rng.below(j as u64 + 1) as usize;
+        fs.swap(j, k);
+    }
+    fs
+}
+fn gen_dis_mode(rng: &mut Rng) -> u8 {
+    match rng.below(12) {
+        0..=5 => 0,
+        6..=9 => 1,
+        10 => 2,
+        _ => 3,
+    }
+}
+/// filter sets over the combination space: per kind 0 / 1 / 2 / 3+ filters, enabled and disabled
+fn gen_filters(rng: &mut Rng) -> Vec<CF> {
+    let cls = |rng: &mut Rng| -> u8 {
+        match rng.below(12) {
+            0..=4 => 0,
+            5..=8 => 1,
+            9..=10 => 2,
+            _ => 3,
+        }
+    };
+    match rng.below(10) {
+        0..=1 => vec![],
+        2..=4 => {
+            // one kind only, 1 .. 3+ filters
+            let mut classes = [0u8; 3];
+            classes[rng.below(3) as usize] = 1 + rng.below(3) as u8;
+            let d = gen_dis_mode(rng);
+            shaped_filters(rng, classes, d)
+        }
+        _ => {
+            let classes = [cls(rng), cls(rng), cls(rng)];
+            let d = gen_dis_mode(rng);
+            shaped_filters(rng, classes, d)
+        }
+    }
+}
+/// the j-th shape of the systematic sweep: (positive, negative, event) classes in 0..4 each
+fn shape_of(j: u64) -> [u8; 3] {
+    [(j % 4) as u8, ((j / 4) % 4) as u8, ((j / 16) % 4) as u8]
+}
+fn class_name(n: usize) -> &'static str {
+    match n {
+        0 => "0",
+        1 => "1",
+        2 => "2",
+        _ => "3plus",
+    }
+}
+/// where a filter set lies in the combination space, relative to the messages it is applied to
+fn fs_tags(p: &str, fs: &[CF], msgs: &[(u8, u8, u8)]) -> Vec<String> {
+    let mut t = vec![];
+    for (name, k) in [("pos", 0u8), ("neg", 1), ("ev", 3)] {
+        let en = cf_kind(fs, k);
+        let dis = fs.iter().filter(|f| f.0 == k && f.3 == 0).count();
+        t.push(format!("{}_{}{}", p, name, class_name(en.len())));
+        if dis > 0 {
+            t.push(format!("{}_{}_disabled_{}", p, name, if en.is_empty() { "alone" } else { "next_to_enabled" }));
+        }
+        if en.len() >= 2 {
+            let cnt = |m: &(u8, u8, u8)| en.iter().filter(|f| cf_hit(f, m.0, m.1, m.2)).count();
+            if msgs.iter().any(|m| cnt(m) == 0) {
+                t.push(format!("{}_{}2plus_msg_matching_none", p, name));
+            }
+            if msgs.iter().any(|m| cnt(m) >= 1 && cnt(m) < en.len()) {
+                t.push(format!("{}_{}2plus_msg_matching_some_not_all", p, name));
+            }
+            if msgs.iter().any(|m| cnt(m) == en.len()) {
+                t.push(format!("{}_{}2plus_msg_matching_all", p, name));
+            }
+        }
+    }
+    if !fs.is_empty() && fs.iter().all(|f| f.3 == 0) {
+        t.push(format!("{}_only_disabled", p));
+    }
+    let sel = msgs.iter().filter(|m| cf_match(fs, m.0, m.1, m.2)).count();
+    t.push(format!("{}_selects_{}", p, if msgs.is_empty() { "nothing_to_select" } else if sel == 0 { "none" } else if sel == msgs.len() { "all" } else { "some" }));
+    t
 }
 
 // ---------------------------------------------------------------- messages
@@ -278,6 +427,10 @@ fn lib_record(sink: &mut Sink, c: LibCase, origin: &str) {
     if !cf_active(&c.fs) {
         tags.push("lib_unfiltered".into());
     }
+    if total <= 1000 {
+        let kinds: Vec<(u8, u8, u8)> = c.log.iter().filter(|r| r.0 > 0).map(|r| (r.1, r.2, 0)).collect();
+        tags.extend(fs_tags("lib", &c.fs, &kinds));
+    }
     if c.calls.iter().any(|k| matches!(k, LCall::Raw { .. })) {
         tags.push("lib_raw_call".into());
     }
@@ -292,15 +445,23 @@ fn lib_record(sink: &mut Sink, c: LibCase, origin: &str) {
     sink.push(Case { id, key: input_coq.clone(), input_coq, input_json: json!({"kind": "lib", "lib": c}), obs, verdict, classes: vec![], tags, nontrivial });
 }
 
-fn gen_lib(rng: &mut Rng, big: bool) -> LibCase {
+/// `shape`: the filter set is the given one and the log has messages of every (ecu, apid) combination
+fn gen_lib(rng: &mut Rng, big: bool, shape: Option<Vec<CF>>) -> LibCase {
     let is_stream = rng.chance(1, 2);
-    let mut fs = gen_filters(rng);
-    if rng.chance(3, 4) && !cf_active(&fs) {
-        fs.push((0, 1, rng.below(3) as u8));
-    }
+    let swept = shape.is_some();
+    let mut fs = match shape {
+        Some(fs) => fs,
+        None => {
+            let mut fs = gen_filters(rng);
+            if rng.chance(3, 4) && fs.is_empty() {
+                fs.push((0, 1, rng.below(3) as u8, 1));
+            }
+            fs
+        }
+    };
     // no ctid in the library-level log: keep to ecu/apid
     for f in fs.iter_mut() {
-        if f.1 == 2 {
+        if f.1 >= 2 {
             f.1 = 1;
             f.2 %= 3;
         }
@@ -310,6 +471,12 @@ fn gen_lib(rng: &mut Rng, big: bool) -> LibCase {
     for _ in 0..nruns {
         let cnt = if big { 1 + rng.below(40_000) } else { 1 + rng.size(6) };
         log.push((cnt, 1 + rng.below(2) as u8, rng.below(3) as u8));
+    }
+    if swept {
+        for j in 0..6u8 {
+            let at = rng.below(log.len() as u64 + 1) as usize;
+            log.insert(at, (1 + rng.below(3), 1 + j % 2, j / 2));
+        }
     }
     let total: u64 = log.iter().map(|x| x.0).sum();
     let start = rng.below(4);
@@ -1180,11 +1347,11 @@ fn run_session(srv_port: u16, c: &SessCase, dir: &std::path::Path, uniq: u64) ->
             }
             let is_query_done = d > 0;
             if ix.len() > want.len() || ix[..] != want[..ix.len()] {
-                viol = Some(sess_fail("window_exact_once_in_order", format!("id {} window [{},{}) delivered {} want {}", r.id, r.start, r.end, summ(&ix, &want), summ(&want, &ix))));
+                viol = Some(sess_fail("window_exact_once_in_order", format!("id {} filters {:?} window [{},{}) delivered {} want {}", r.id, st.fs, r.start, r.end, summ(&ix, &want), summ(&want, &ix))));
                 break;
             }
             if (r.must_be_complete || is_query_done) && ix != want {
-                viol = Some(sess_fail("window_complete", format!("id {} window [{},{}) delivered {} want {}", r.id, r.start, r.end, summ(&ix, &want), summ(&want, &ix))));
+                viol = Some(sess_fail("window_complete", format!("id {} filters {:?} window [{},{}) delivered {} want {}", r.id, st.fs, r.start, r.end, summ(&ix, &want), summ(&want, &ix))));
                 break;
             }
             if !st.binary {
@@ -1245,7 +1412,7 @@ fn run_session(srv_port: u16, c: &SessCase, dir: &std::path::Path, uniq: u64) ->
                     let seq = seq_of(&streams[*k].fs);
                     let (wi, wn) = search_truth(&probe, &seq, *start, *maxr, fs, &kind);
                     if *idxs != wi || *next != wn {
-                        viol = Some(sess_fail("search_page", format!("start {} max {}: got {:?} next {:?}, want {:?} next {:?}", start, maxr, idxs, next, wi, wn)));
+                        viol = Some(sess_fail("search_page", format!("search filters {:?} (stream filters {:?}) start {} max {}: got {:?} next {:?}, want {:?} next {:?}", fs, streams[*k].fs, start, maxr, idxs, next, wi, wn)));
                     }
                 }
                 Chk::Pages { k, start, fs, pages } => {
@@ -1260,7 +1427,7 @@ fn run_session(srv_port: u16, c: &SessCase, dir: &std::path::Path, uniq: u64) ->
                         .collect();
                     let union: Vec<u64> = pages.iter().flat_map(|p| p.1.iter().cloned()).collect();
                     if union != all_hits {
-                        viol = Some(sess_fail("search_pages_partition", format!("start {}: union of pages {:?}, matching positions {:?}", start, union, all_hits)));
+                        viol = Some(sess_fail("search_pages_partition", format!("search filters {:?} (stream filters {:?}) start {}: union of pages {:?}, positions selected by the enabled filters {:?}", fs, streams[*k].fs, start, union, all_hits)));
                     }
                     // every position examined exactly once: page i examines [from_i, next_i)
                     for w in pages.windows(2) {
@@ -1558,6 +1725,23 @@ fn sess_record(sink: &mut Sink, c: SessCase, out: SessOut) {
             tags.push(if w == 0 { "win_empty".to_string() } else { format!("win_1e{}", w.to_string().len() - 1) });
         }
     }
+    // where the filter sets of the streams / queries and of the searches lie in the combination space
+    {
+        let kinds: Vec<(u8, u8, u8)> = c.file.iter().filter(|r| r.cnt > 0).map(|r| (r.ecu, r.apid, r.ctid)).collect();
+        let news: Vec<&Vec<CF>> = c.ops.iter().filter_map(|o| if let SOp::New { fs, .. } = o { Some(fs) } else { None }).collect();
+        for o in &c.ops {
+            match o {
+                SOp::New { fs, .. } => tags.extend(fs_tags("new", fs, &kinds)),
+                SOp::Search { k, fs, .. } | SOp::Pages { k, fs, .. } => {
+                    let empty = vec![];
+                    let sfs: &Vec<CF> = news.get(*k).copied().unwrap_or(&empty);
+                    let seen: Vec<(u8, u8, u8)> = kinds.iter().cloned().filter(|m| cf_match(sfs, m.0, m.1, m.2)).collect();
+                    tags.extend(fs_tags("search", fs, &seen));
+                }
+                _ => {}
+            }
+        }
+    }
     let nontrivial = c.ops.len() >= 3 && c.ops.iter().any(|o| matches!(o, SOp::New { fs, .. } if cf_active(fs)));
     let id = sink.next_id();
     let key = format!("{:?}", c);
@@ -1675,8 +1859,8 @@ fn gen_lookup_sess(rng: &mut Rng, sorted: bool, collect: u8, plugin: bool) -> Se
     let max_t: u64 = file.iter().map(|r| (r.ts0 + r.jit) as u64).max().unwrap_or(0);
     let mut ops = vec![
         SOp::New { settle: true, is_stream: true, binary: true, fs: vec![], start: 0, end: 3 },
-        SOp::New { settle: true, is_stream: true, binary: true, fs: vec![(0, 1, rng.below(3) as u8)], start: 0, end: 3 },
-        SOp::New { settle: true, is_stream: true, binary: rng.chance(1, 2), fs: vec![(1, 1, rng.below(3) as u8), (*rng.pick(&[1u8, 3]), 2, rng.below(2) as u8)], start: 1, end: 2 },
+        SOp::New { settle: true, is_stream: true, binary: true, fs: vec![(0, 1, rng.below(3) as u8, 1)], start: 0, end: 3 },
+        SOp::New { settle: true, is_stream: true, binary: rng.chance(1, 2), fs: vec![(1, 1, rng.below(3) as u8, 1), (*rng.pick(&[1u8, 3]), 2, rng.below(2) as u8, 1)], start: 1, end: 2 },
     ];
     let span_ms = max_t / 10 + 4;
     let step_ms = (span_ms + 47) / 48;
@@ -1688,6 +1872,62 @@ fn gen_lookup_sess(rng: &mut Rng, sorted: bool, collect: u8, plugin: bool) -> Se
         ops.push(SOp::LookTimeAll { k, t0_ms: BASE_US / 1000 - 1, step_ms, cnt: span_ms / step_ms + 2 });
     }
     SessCase { collect, plugin, sorted, preload: rng.chance(2, 3), file, ops }
+}
+
+/// a small file with messages of all 12 (ecu, apid, ctid) combinations, shuffled, some of them several times
+fn gen_file_combos(rng: &mut Rng) -> Vec<FRun> {
+    let mut combos: Vec<(u8, u8, u8)> = vec![];
+    for e in 1..=2u8 {
+        for a in 0..3u8 {
+            for c in 0..2u8 {
+                combos.push((e, a, c));
+            }
+        }
+    }
+    for _ in 0..rng.below(10) {
+        combos.push((1 + rng.below(2) as u8, rng.below(3) as u8, rng.below(2) as u8));
+    }
+    for j in (1..combos.len()).rev() {
+        let k = rng.below(j as u64 + 1) as usize;
+        combos.swap(j, k);
+    }
+    let mut ts = rng.below(50) as u32;
+    combos
+        .iter()
+        .map(|(e, a, c)| {
+            ts += *rng.pick(&[0u32, 0, 10, 10, 20]);
+            FRun { cnt: 1, ecu: *e, apid: *a, ctid: *c, ts0: ts, dts: 0, jit: 0 }
+        })
+        .collect()
+}
+
+/// the combination space of filter sets, swept: session j creates streams / queries with the shapes 8j .. 8j+7
+/// (0 / 1 / 2 / 3+ positive x negative x event filters, enabled / disabled mixes) on a file with messages of every
+/// combination, and searches (single pages and paging) with a permutation of the shapes in unfiltered and filtered streams
+fn gen_combo_sess(rng: &mut Rng, j: u64) -> SessCase {
+    let file = gen_file_combos(rng);
+    let n: u64 = file.len() as u64;
+    let mut ops = vec![SOp::New { settle: true, is_stream: true, binary: true, fs: vec![], start: 0, end: n + 5 }];
+    let mut stream_ks: Vec<usize> = vec![0];
+    for i in 0..8u64 {
+        let d = gen_dis_mode(rng);
+        let fs = shaped_filters(rng, shape_of(8 * j + i), d);
+        let (start, end) = if rng.chance(2, 3) { (0, n + 3) } else { gen_window(rng, n) };
+        let is_stream = rng.chance(1, 2);
+        if is_stream {
+            stream_ks.push(1 + i as usize);
+        }
+        ops.push(SOp::New { settle: true, is_stream, binary: rng.chance(3, 4), fs, start, end });
+        let d = gen_dis_mode(rng);
+        let gs = shaped_filters(rng, shape_of((8 * j + i) * 37 + 11), d);
+        let k = if rng.chance(1, 2) { 0 } else { *rng.pick(&stream_ks) };
+        if rng.chance(2, 3) {
+            ops.push(SOp::Pages { k, start: rng.below(3), maxr: *rng.pick(&[1u64, 2, 3, 5, 100]), fs: gs });
+        } else {
+            ops.push(SOp::Search { k, start: rng.below(n / 2 + 1), maxr: *rng.pick(&[0u64, 1, 2, 3, 100]), fs: gs });
+        }
+    }
+    SessCase { collect: (j % 3) as u8, plugin: j % 5 == 4, sorted: j % 4 == 3, preload: j % 6 != 5, file, ops }
 }
 
 fn gen_sess(rng: &mut Rng, racing: bool, sorted: bool) -> SessCase {
@@ -1805,10 +2045,17 @@ fn gen_large_sess(rng: &mut Rng, n_target: u64) -> SessCase {
     let n: u64 = file.iter().map(|r| r.cnt as u64).sum();
     let max_ts: u64 = file.iter().map(|r| (r.ts0 + r.cnt * r.dts) as u64).max().unwrap_or(0);
     let filt = |rng: &mut Rng| -> Vec<CF> {
-        match rng.below(4) {
+        match rng.below(7) {
             0 | 1 => vec![],
-            2 => vec![(1, 1, rng.below(3) as u8)],                   // everything but one apid
-            _ => vec![(0, 1, rng.below(3) as u8), (0, 2, rng.below(2) as u8)], // one apid or one ctid
+            2 => vec![(1, 1, rng.below(3) as u8, 1)],                   // everything but one apid
+            3 => vec![(0, 1, rng.below(3) as u8, 1), (0, 2, rng.below(2) as u8, 1)], // one apid or one ctid
+            4 => {
+                // two event filters: the union of two apids
+                let a = rng.below(3) as u8;
+                vec![(3, 1, a, 1), (3, 1, (a + 1 + rng.below(2) as u8) % 3, 2)]
+            }
+            5 => vec![(0, 1, rng.below(3) as u8, 0), (1, 2, rng.below(2) as u8, 1), (3, 1, rng.below(3) as u8, 0)], // disabled positive / event next to a negative
+            _ => vec![(3, 3, rng.below(6) as u8, 1), (3, 1, rng.below(3) as u8, 1), (0, 0, 1, 2)],
         }
     };
     let win = |rng: &mut Rng| -> (u64, u64) {
@@ -1832,7 +2079,7 @@ fn gen_large_sess(rng: &mut Rng, n_target: u64) -> SessCase {
     // file is parsed): always a query over the whole file and beyond, and one over the whole filtered stream
     ops.push(SOp::New { settle: true, is_stream: true, binary: true, fs: vec![], start: 0, end: 1 });
     ops.push(SOp::New { settle: true, is_stream: false, binary: true, fs: vec![], start: rng.below(3), end: n + 1 + rng.below(1000) });
-    ops.push(SOp::New { settle: true, is_stream: false, binary: true, fs: vec![(1, 1, rng.below(3) as u8)], start: 0, end: 4 * n });
+    ops.push(SOp::New { settle: true, is_stream: false, binary: true, fs: vec![(1, 1, rng.below(3) as u8, 1)], start: 0, end: 4 * n });
     let mut kinds: Vec<bool> = ops.iter().map(|o| matches!(o, SOp::New { is_stream: true, .. })).collect();
     for _ in 0..(3 + rng.below(4)) {
         let streams_k: Vec<usize> = (0..kinds.len()).filter(|k| kinds[*k]).collect();
@@ -1885,7 +2132,10 @@ fn run_sessions(cases: Vec<SessCase>) -> Vec<(SessCase, SessOut)> {
 
 // ================================================================ corpus
 fn corpus_lib() -> Vec<LibCase> {
-    let p1 = |a: u8| vec![(0u8, 1u8, a)];
+    let p1 = |a: u8| vec![(0u8, 1u8, a, 1u8)];
+    // messages of every (ecu, apid) combination, twice
+    let all6: Vec<(u64, u8, u8)> = (0..12u8).map(|j| (1 + (j % 2) as u64, 1 + j % 2, (j / 2) % 3)).collect();
+    let two_calls = vec![LCall::Proto { arrive: 7, chunk: 4 }, LCall::Proto { arrive: 100, chunk: 3 }, LCall::Proto { arrive: 0, chunk: 3_000_000 }, LCall::Proto { arrive: 0, chunk: 3_000_000 }];
     vec![
         // the unit tests' shapes
         LibCase { is_stream: true, fs: p1(1), start: 0, end: 20, log: vec![(1, 1, 1), (3, 1, 0), (2, 1, 1)], calls: vec![LCall::Proto { arrive: 0, chunk: 10 }, LCall::Proto { arrive: 1, chunk: 10 }, LCall::Proto { arrive: 1, chunk: 1 }, LCall::Proto { arrive: 9, chunk: 10000 }] },
@@ -1893,25 +2143,59 @@ fn corpus_lib() -> Vec<LibCase> {
         // query: more matches in a chunk than wanted -> marker at the first unwanted one, then a larger window resumes there
         LibCase { is_stream: false, fs: p1(1), start: 0, end: 2, log: vec![(1, 1, 0), (4, 1, 1), (2, 1, 0), (3, 1, 1)], calls: vec![LCall::Proto { arrive: 10, chunk: 100 }, LCall::Proto { arrive: 0, chunk: 100 }, LCall::End { e: 5 }, LCall::Proto { arrive: 0, chunk: 3 }, LCall::Proto { arrive: 0, chunk: 3 }, LCall::Proto { arrive: 0, chunk: 100 }] },
         // chunk size 1, stream
-        LibCase { is_stream: true, fs: vec![(0, 1, 1), (1, 0, 2)], start: 0, end: 20, log: vec![(2, 1, 1), (2, 2, 1), (2, 1, 0)], calls: (0..8).map(|_| LCall::Proto { arrive: 1, chunk: 1 }).collect() },
+        LibCase { is_stream: true, fs: vec![(0, 1, 1, 1), (1, 0, 2, 1)], start: 0, end: 20, log: vec![(2, 1, 1), (2, 2, 1), (2, 1, 0)], calls: (0..8).map(|_| LCall::Proto { arrive: 1, chunk: 1 }).collect() },
         // no filters: only the marker moves
         LibCase { is_stream: true, fs: vec![], start: 0, end: 20, log: vec![(5, 1, 1)], calls: vec![LCall::Proto { arrive: 2, chunk: 1 }, LCall::Proto { arrive: 3, chunk: 1 }] },
         // marker filter only: not active
-        LibCase { is_stream: false, fs: vec![(2, 1, 1)], start: 0, end: 2, log: vec![(5, 1, 1)], calls: vec![LCall::Proto { arrive: 5, chunk: 10 }] },
+        LibCase { is_stream: false, fs: vec![(2, 1, 1, 1)], start: 0, end: 2, log: vec![(5, 1, 1)], calls: vec![LCall::Proto { arrive: 5, chunk: 10 }] },
         // window end 0: a query never collects
         LibCase { is_stream: false, fs: p1(1), start: 0, end: 0, log: vec![(5, 1, 1)], calls: vec![LCall::Proto { arrive: 5, chunk: 10 }, LCall::Proto { arrive: 0, chunk: 10 }] },
         // more than PART_CHUNK_SIZE messages in one call: several part chunks, truncation inside the second one
         LibCase { is_stream: false, fs: p1(1), start: 0, end: 66000, log: vec![(65000, 1, 1), (2000, 1, 0), (3000, 1, 1), (10, 1, 0)], calls: vec![LCall::Proto { arrive: 70010, chunk: 3_000_000 }, LCall::Proto { arrive: 0, chunk: 3_000_000 }, LCall::End { e: 70000 }, LCall::Proto { arrive: 0, chunk: 3_000_000 }] },
         LibCase { is_stream: false, fs: p1(1), start: 0, end: 1_000_000, log: vec![(65536, 1, 0), (1, 1, 1), (65535, 1, 0), (1, 1, 1)], calls: vec![LCall::Proto { arrive: 200000, chunk: 65537 }, LCall::Proto { arrive: 0, chunk: 65537 }, LCall::Proto { arrive: 0, chunk: 70000 }] },
         LibCase { is_stream: true, fs: p1(1), start: 0, end: 10, log: vec![(70000, 1, 1), (70000, 1, 0)], calls: vec![LCall::Proto { arrive: 140000, chunk: 100000 }, LCall::Proto { arrive: 0, chunk: 100000 }] },
+        // filter sets: two / three event filters (a union), every kind at once, disabled filters alone and next to enabled ones
+        LibCase { is_stream: true, fs: vec![(3, 0, 1, 1), (3, 1, 2, 1)], start: 0, end: 20, log: all6.clone(), calls: two_calls.clone() },
+        LibCase { is_stream: false, fs: vec![(3, 1, 0, 1), (3, 1, 1, 2), (3, 1, 2, 1)], start: 0, end: 4, log: all6.clone(), calls: two_calls.clone() },
+        LibCase { is_stream: false, fs: vec![(3, 1, 0, 1), (0, 0, 1, 1), (1, 1, 2, 1), (3, 1, 1, 1), (0, 1, 1, 1), (2, 0, 2, 1)], start: 1, end: 100, log: all6.clone(), calls: two_calls.clone() },
+        LibCase { is_stream: true, fs: vec![(0, 1, 1, 0)], start: 0, end: 20, log: all6.clone(), calls: two_calls.clone() },
+        LibCase { is_stream: true, fs: vec![(3, 1, 1, 0), (1, 0, 2, 1)], start: 0, end: 20, log: all6.clone(), calls: two_calls.clone() },
+        LibCase { is_stream: false, fs: vec![(0, 1, 1, 0), (3, 1, 2, 0), (3, 0, 1, 2), (1, 1, 0, 0)], start: 0, end: 20, log: all6.clone(), calls: two_calls.clone() },
+        LibCase { is_stream: true, fs: vec![(1, 1, 0, 1), (1, 0, 2, 1), (1, 1, 0, 0)], start: 0, end: 20, log: all6, calls: two_calls },
     ]
 }
 
 fn corpus_sess() -> Vec<SessCase> {
     let f12: Vec<FRun> = (0..12u32).map(|i| FRun { cnt: 1, ecu: 1, apid: (i % 3) as u8, ctid: 0, ts0: 10 * (i / 3), dts: 0, jit: 0 }).collect();
-    let app12 = vec![(0u8, 1u8, 1u8), (0, 1, 2)];
+    let app12: Vec<CF> = vec![(0, 1, 1, 1), (0, 1, 2, 1)];
     let t = |ms: u64| BASE_US / 1000 + ms;
+    // messages of all 12 (ecu, apid, ctid) combinations
+    let f_all: Vec<FRun> = (0..12u32).map(|i| FRun { cnt: 1, ecu: 1 + (i % 2) as u8, apid: (i % 3) as u8, ctid: ((i / 6) % 2) as u8, ts0: 10 * (i / 2), dts: 0, jit: 0 }).collect();
+    let mut filter_ops = vec![
+        SOp::New { settle: true, is_stream: true, binary: true, fs: vec![], start: 0, end: 100 },
+        // two event filters: the union of two apids; three event filters with overlapping criteria
+        SOp::New { settle: true, is_stream: true, binary: true, fs: vec![(3, 1, 1, 1), (3, 1, 2, 1)], start: 0, end: 100 },
+        SOp::New { settle: true, is_stream: false, binary: true, fs: vec![(3, 1, 0, 1), (3, 2, 1, 2), (3, 0, 1, 1)], start: 0, end: 100 },
+        // only disabled filters: the stream is the whole file
+        SOp::New { settle: true, is_stream: true, binary: false, fs: vec![(0, 1, 1, 0), (3, 2, 0, 0)], start: 0, end: 100 },
+        // every kind, enabled and disabled ones
+        SOp::New { settle: true, is_stream: true, binary: true, fs: vec![(0, 1, 1, 0), (3, 1, 2, 1), (1, 2, 1, 0), (3, 3, 3, 1), (0, 0, 1, 2), (1, 3, 5, 1), (2, 1, 0, 1)], start: 1, end: 100 },
+    ];
+    for ty in 0..4u8 {
+        // a disabled filter of each kind in the search request: alone, next to an enabled one of the same kind, next to
+        // an enabled one of another kind; in the unfiltered stream and in filtered ones
+        let other = [3u8, 0, 3, 0][ty as usize];
+        filter_ops.push(SOp::Pages { k: 0, start: 0, maxr: 5, fs: vec![(ty, 1, 1, 0)] });
+        filter_ops.push(SOp::Pages { k: 0, start: 0, maxr: 2, fs: vec![(ty, 1, 1, 0), (ty, 1, 2, 1)] });
+        filter_ops.push(SOp::Pages { k: 1, start: 0, maxr: 100, fs: vec![(other, 2, 0, 2), (ty, 0, 2, 0)] });
+        filter_ops.push(SOp::Search { k: 4, start: 0, maxr: 100, fs: vec![(ty, 3, 4, 0), (ty, 1, 0, 0)] });
+    }
+    filter_ops.push(SOp::Pages { k: 0, start: 0, maxr: 2, fs: vec![(3, 1, 0, 1), (3, 1, 1, 1)] });
+    filter_ops.push(SOp::Pages { k: 0, start: 1, maxr: 3, fs: vec![(3, 1, 0, 1), (3, 0, 2, 1), (3, 2, 1, 1)] });
+    filter_ops.push(SOp::Pages { k: 3, start: 0, maxr: 1, fs: vec![(0, 1, 0, 1), (0, 1, 1, 1), (1, 0, 2, 1), (1, 2, 1, 1), (3, 0, 1, 1), (3, 1, 1, 1)] });
+    filter_ops.push(SOp::Search { k: 1, start: 0, maxr: 100, fs: vec![(3, 1, 1, 1), (3, 0, 1, 1), (0, 1, 1, 0)] });
     vec![
+        SessCase { collect: 0, plugin: false, sorted: false, preload: true, file: f_all, ops: filter_ops },
         // the witnesses of the repaired defects: search in an unfiltered stream, paging, lookups on equal times
         SessCase {
             collect: 0, plugin: false, sorted: false,
@@ -1920,9 +2204,9 @@ fn corpus_sess() -> Vec<SessCase> {
             ops: vec![
                 SOp::New { settle: true, is_stream: true, binary: true, fs: vec![], start: 0, end: 100 },
                 SOp::New { settle: true, is_stream: true, binary: true, fs: app12.clone(), start: 0, end: 100 },
-                SOp::Search { k: 0, start: 0, maxr: 1, fs: vec![(0, 1, 1)] },
+                SOp::Search { k: 0, start: 0, maxr: 1, fs: vec![(0, 1, 1, 1)] },
                 SOp::Pages { k: 0, start: 0, maxr: 2, fs: vec![] },
-                SOp::Pages { k: 1, start: 0, maxr: 1, fs: vec![(0, 1, 1)] },
+                SOp::Pages { k: 1, start: 0, maxr: 1, fs: vec![(0, 1, 1, 1)] },
                 SOp::Pages { k: 1, start: 0, maxr: 2, fs: vec![] },
                 // pages that fill at the second-to-last / last position
                 SOp::Pages { k: 0, start: 1, maxr: 2, fs: vec![] },
@@ -1959,9 +2243,9 @@ fn corpus_sess() -> Vec<SessCase> {
                 SOp::Window { settle: true, k: 0, start: 2, end: 7 },
                 SOp::Window { settle: true, k: 0, start: 5, end: 5 },
                 SOp::Window { settle: true, k: 0, start: 9, end: 20 },
-                SOp::New { settle: true, is_stream: false, binary: true, fs: vec![(0, 1, 1)], start: 1, end: 3 },
+                SOp::New { settle: true, is_stream: false, binary: true, fs: vec![(0, 1, 1, 1)], start: 1, end: 3 },
                 SOp::Window { settle: true, k: 1, start: 0, end: 2 },
-                SOp::New { settle: true, is_stream: false, binary: true, fs: vec![(1, 1, 1)], start: 6, end: 100 },
+                SOp::New { settle: true, is_stream: false, binary: true, fs: vec![(1, 1, 1, 1)], start: 6, end: 100 },
                 SOp::Stop { k: 0 },
                 SOp::Window { settle: true, k: 0, start: 0, end: 2 },
             ],
@@ -1981,7 +2265,7 @@ fn corpus_sess() -> Vec<SessCase> {
                     match kind % 4 {
                         0 => v.push(SOp::Window { settle: true, k, start: (kind as u64) % 5, end: (kind as u64) % 5 + 3 }),
                         1 => v.push(SOp::LookIdx { k, idx: (kind as u64) % 12 }),
-                        2 => v.push(SOp::Search { k, start: 0, maxr: 2, fs: vec![(0, 1, 1)] }),
+                        2 => v.push(SOp::Search { k, start: 0, maxr: 2, fs: vec![(0, 1, 1, 1)] }),
                         _ => v.push(SOp::LookTime { k, t_ms: t(1) }),
                     }
                 }
@@ -2000,7 +2284,7 @@ fn corpus_sess() -> Vec<SessCase> {
             preload: false,
             file: vec![FRun { cnt: 40000, ecu: 1, apid: 0, ctid: 0, ts0: 0, dts: 1, jit: 0 }, FRun { cnt: 40000, ecu: 1, apid: 1, ctid: 0, ts0: 40000, dts: 1, jit: 0 }],
             ops: vec![
-                SOp::New { settle: false, is_stream: true, binary: true, fs: vec![(0, 1, 1)], start: 39990, end: 40010 },
+                SOp::New { settle: false, is_stream: true, binary: true, fs: vec![(0, 1, 1, 1)], start: 39990, end: 40010 },
                 SOp::Bad { k: 0, kind: 1, arg: 7 },
                 SOp::Bad { k: 0, kind: 4, arg: 0 },
                 SOp::Bad { k: 0, kind: 8, arg: 1 },
@@ -2020,7 +2304,7 @@ fn corpus_sess() -> Vec<SessCase> {
             file: (0..12u32).map(|i| FRun { cnt: 1, ecu: 1, apid: (i % 3) as u8, ctid: 0, ts0: 50 + 10 * (i ^ 1), dts: 0, jit: 0 }).collect(),
             ops: vec![
                 SOp::New { settle: true, is_stream: true, binary: true, fs: vec![], start: 0, end: 100 },
-                SOp::New { settle: true, is_stream: true, binary: true, fs: vec![(0, 1, 0)], start: 0, end: 100 },
+                SOp::New { settle: true, is_stream: true, binary: true, fs: vec![(0, 1, 0, 1)], start: 0, end: 100 },
                 SOp::LookIdxAll { k: 0, n: 13 },
                 SOp::LookIdxAll { k: 1, n: 13 },
                 SOp::LookTimeAll { k: 1, t0_ms: t(0) - 1, step_ms: 1, cnt: 20 },
@@ -2032,10 +2316,10 @@ fn corpus_sess() -> Vec<SessCase> {
             preload: false,
             file: vec![FRun { cnt: 30000, ecu: 1, apid: 0, ctid: 0, ts0: 0, dts: 1, jit: 0 }, FRun { cnt: 30000, ecu: 1, apid: 1, ctid: 0, ts0: 30000, dts: 0, jit: 0 }, FRun { cnt: 30000, ecu: 1, apid: 2, ctid: 1, ts0: 30000, dts: 2, jit: 0 }],
             ops: vec![
-                SOp::New { settle: false, is_stream: false, binary: true, fs: vec![(0, 1, 1)], start: 29990, end: 30010 },
-                SOp::New { settle: false, is_stream: true, binary: true, fs: vec![(1, 1, 0)], start: 59990, end: 60010 },
+                SOp::New { settle: false, is_stream: false, binary: true, fs: vec![(0, 1, 1, 1)], start: 29990, end: 30010 },
+                SOp::New { settle: false, is_stream: true, binary: true, fs: vec![(1, 1, 0, 1)], start: 59990, end: 60010 },
                 SOp::Window { settle: true, k: 1, start: 29995, end: 30005 },
-                SOp::Pages { k: 1, start: 59200, maxr: 300, fs: vec![(0, 2, 1)] },
+                SOp::Pages { k: 1, start: 59200, maxr: 300, fs: vec![(0, 2, 1, 1)] },
                 SOp::LookTime { k: 1, t_ms: t(3000) },
                 SOp::LookIdx { k: 1, idx: 100 },
             ],
@@ -2078,6 +2362,12 @@ fn main() {
     for i in 0..nlook {
         sess.push(gen_lookup_sess(&mut srng, i % 2 == 0, (i % 3) as u8, i % 4 == 1));
     }
+    // the combination space of filter sets (streams, queries, searches)
+    let ncombo = if a.count.is_some() { 0 } else if quick { 8 } else { 64 };
+    let combo0 = if quick { a.seed.wrapping_sub(1).wrapping_mul(8) } else { 0 };
+    for i in 0..ncombo {
+        sess.push(gen_combo_sess(&mut srng, combo0 + i));
+    }
     // large sessions: windows over several orders of magnitude
     let nlarge = if a.count.is_some() { 0 } else if quick { 3 } else { 16 };
     for i in 0..nlarge {
@@ -2105,6 +2395,16 @@ fn main() {
     for c in corpus_lib() {
         lib_record(&mut sink, c, "corpus");
     }
+    // the combination space of filter sets at library level: every shape as stream / query
+    if a.count.is_none() {
+        for j in 0..(if quick { 128u64 } else { 1280 }) {
+            let d = gen_dis_mode(&mut rng);
+            let fs = shaped_filters(&mut rng, shape_of(j), d);
+            let mut c = gen_lib(&mut rng, false, Some(fs));
+            c.is_stream = (j / 64) % 2 == 0;
+            lib_record(&mut sink, c, "sweep");
+        }
+    }
     let nlib = a.count.unwrap_or(if quick { 700 } else { 12000 });
     let every = std::cmp::max(1, nlib / (large.len() as u64 + 1));
     for i in 0..nlib {
@@ -2114,7 +2414,7 @@ fn main() {
             }
         }
         let big = i % (if quick { 120 } else { 300 }) == 7;
-        let c = gen_lib(&mut rng, big);
+        let c = gen_lib(&mut rng, big, None);
         lib_record(&mut sink, c, "gen");
     }
     // std binary search
